@@ -57,4 +57,5 @@ registry! {
     c33::C33,
     c34::C34,
     c36::C36,
+    c38::C38,
 }
